@@ -445,6 +445,21 @@ class Run:
             self.violations.append({"what": what, "case": case})
         return True
 
+    def check_witnesses(self):
+        """Replay the witness of every known finding of this property on the real binary.
+        fixed entry: the witness must pass (else the defect is back -> violation).
+        open entry: reported on the KNOWN-FINDING line; if it stopped failing that is said."""
+        for f in self.findings:
+            w = f.get("witness")
+            if not w:
+                continue
+            ok, detail = run_witness(w)
+            self.count("witness." + f["id"] + (".pass" if ok else ".fail"))
+            if f.get("status") == "fixed" and not ok:
+                self.violations.append({"what": "fixed finding %s is back: %s (%s)" % (f["id"], f["what"], detail), "case": w})
+            if f.get("status") == "open":
+                f["_witness_fails"] = not ok
+
     def disagreement(self, what, case):
         if len(self.disagreements) < 50:
             self.disagreements.append({"what": what, "case": case})
@@ -457,7 +472,8 @@ class Run:
         for f in self.findings:
             if f.get("status") == "open":
                 n = self.known_hits.get(f["id"], 0)
-                lines.append(f"KNOWN-FINDING: property={self.prop} {f['id']}: {f['what']} (seen {n}x this run)")
+                still = "" if f.get("_witness_fails", True) else " [witness no longer fails]"
+                lines.append(f"KNOWN-FINDING: property={self.prop} {f['id']}: {f['what']} (seen {n}x this run){still}")
         proof_fail = proof.get("failures", []) if proof else []
         replay = None
         if self.violations:
@@ -519,6 +535,43 @@ class Run:
         with open(p, "w") as f:
             json.dump(obj, f, indent=1, ensure_ascii=False, default=lambda b: b.decode("utf-8", "replace") if isinstance(b, bytes) else str(b))
         return p
+
+
+def run_witness(w):
+    """A committed replay: returns (passes, detail)."""
+    op = w.get("op")
+    with Scratch() as sc:
+        if op == "cli":
+            o = run_cli(w["argv"], stdin=w.get("stdin", ""), cwd=sc.d)
+            if o["timeout"]:
+                return False, "timeout"
+            if "expect_rc" in w and o["rc"] != w["expect_rc"]:
+                return False, "rc %s" % o["rc"]
+            if "expect_stdout" in w and o["out"] != w["expect_stdout"].encode("utf-8"):
+                return False, "stdout %r" % o["out"][:200]
+            if "expect_same_as" in w:
+                o2 = run_cli(w["expect_same_as"], stdin=w.get("stdin", ""), cwd=sc.d)
+                if (o["rc"], o["out"]) != (o2["rc"], o2["out"]):
+                    return False, "%r vs %r" % (o["out"][:200], o2["out"][:200])
+            if "expect_differs_from" in w:
+                o2 = run_cli(w["expect_differs_from"], stdin=w.get("stdin", ""), cwd=sc.d)
+                if (o["rc"], o["out"]) == (o2["rc"], o2["out"]):
+                    return False, "outputs equal"
+            if o["rc"] not in (0, 1) and "expect_rc" not in w:
+                return False, "rc %s" % o["rc"]
+            return True, ""
+        if op == "cli_files":
+            for name, content in w["files"].items():
+                sc.write(name, content)
+            o = run_cli(w["argv"] + sorted(w["files"].keys()), stdin=w.get("stdin", ""), cwd=sc.d)
+            if o["timeout"] or o["rc"] != w.get("expect_rc", 0):
+                return False, "rc %s" % o["rc"]
+            for name, content in w.get("expect_files", {}).items():
+                got = sc.read(name)
+                if got != content.encode("utf-8"):
+                    return False, "%s = %r" % (name, got[:200])
+            return True, ""
+    return True, "unknown witness op (not run)"
 
 
 def shrink_list(items, fails, max_steps=200):
